@@ -90,6 +90,10 @@ structure PArith (F : Type) where
   le : F → F → Bool
   /-- `next_int_range(lo, hi)` for the draw `n`: `(lo + next_double() * (hi - lo)) as i32` -/
   range : Int → Int → Nat → Int
+  /-- `f64::from(i)` for an `i32` -/
+  ofInt : Int → F
+  /-- `x.floor() as i32` (saturating cast) -/
+  floorI32 : F → Int
 
 namespace PArith
 variable {F : Type} (A : PArith F)
@@ -114,6 +118,8 @@ def floatArith : PArith Float where
   le a b := a ≤ b
   range lo hi n :=
     (Float.ofInt lo + ((1.0 / (2147483647.0 + 1.0)) * Float.ofNat n) * Float.ofInt (hi - lo)).toInt32.toInt
+  ofInt := Float.ofInt
+  floorI32 x := x.floor.toInt32.toInt
 
 /-! ## flags -/
 
@@ -497,6 +503,21 @@ structure PathIn (F : Type) where
   /-- `node_sounds` (hit-sound bits per node) -/
   nodes : List Nat
   fuel : Nat
+
+/-- the slider arithmetic of `PathObjectPatternGenerator::new`: from `start_time` (the rounded `i32`),
+`span_count`, `expected_dist.unwrap_or(0.0)`, the precision-adjusted beat length and
+`slider_multiplier` to `(end_time, segment_duration)`:
+`end_time = (f64::from(start_time) + dist * beat_len * f64::from(span_count) * 0.01 / slider_multiplier).floor() as i32`,
+`segment_duration = (end_time - start_time) / span_count` (`i32` subtraction and division checked) -/
+def pathNewDelta (A : PArith F) (span : Int) (dist beatLen sm : F) : F :=
+  A.div (A.mul (A.mul (A.mul dist beatLen) (A.ofInt span)) (A.pct 1)) sm
+
+def pathNew (A : PArith F) (startT span : Int) (dist beatLen sm : F) : M (Int × Int) := do
+  let endT := A.floorI32 (A.add (A.ofInt startT) (pathNewDelta A span dist beatLen sm))
+  let d ← i32sub endT startT
+  if span = 0 then .error .arith
+  else if d = -2147483648 ∧ span = -1 then .error .arith
+  else .ok (endT, Int.tdiv d span)
 
 /-- `find_available_column(initial, validation, patterns)` of the path generator -/
 def pathFind (A : PArith F) (g : PathIn F) (avoid : Option Nat) (patterns : List Cols) (s : Osu)
